@@ -262,13 +262,63 @@ def r3(ctx):
   comp = [c for c in ast.walk(f.node) if isinstance(c, ast.ListComp) and any(ca is calls[0] for ca in ast.walk(c))] if calls else []
   ok = bool(comp) and U(comp[0].generators[0].iter).endswith('VARZ_PERCENTILES') and U(calls[0].args[1]) == U(comp[0].generators[0].target)
   ctx.ob('C18.R3', f, 'one percentile per list entry, in list order', ok, 'percentile comprehension changed', whyp)
+  # the roll-up walks the shared metric tables while other greenlets keep recording: a loop over a live dict view
+  # whose body yields dies with "dictionary changed size during iteration" and the whole aggregate is lost
+  from ..util import is_yield_call
+  n_loops = 0
+  for lp in [n for n in ast.walk(f.node) if isinstance(n, ast.For)]:
+    it = lp.iter
+    live = (isinstance(it, ast.Call) and isinstance(it.func, ast.Attribute) and it.func.attr in ('keys', 'values', 'items') and not it.args) or \
+           isinstance(it, (ast.Name, ast.Attribute, ast.Subscript))
+    if not live:
+      continue
+    src = U(it.func.value if isinstance(it, ast.Call) else it)
+    if not (src == f.params[0] or src.startswith(f.params[0] + '[')):
+      continue         # only views of the shared metric table (parameter `varz`)
+    n_loops += 1
+    ys = [U(c) for st in lp.body for c in ast.walk(st) if isinstance(c, ast.Call) and is_yield_call(c)
+          and not any(c in ast.walk(inner) for inner in ast.walk(lp) if isinstance(inner, ast.For) and inner is not lp and False)]
+    # yields that sit in the body of this loop (directly or in nested statements), not counting nested loops over a snapshot
+    ctx.ob('C18.R3', f, 'loop over the live view %s does not yield (or iterates a snapshot)' % U(it), not ys,
+           'the loop over %s yields at %s while other greenlets may add the first value of a new metric/source' % (U(it), ys),
+           'aggregated counters must equal the sum of all increments: an aggregate that dies with RuntimeError reports nothing')
+  ctx.ob('C18.R3', f, 'the roll-up walks the shared metric table', n_loops >= 1, 'no loop over the metric table found', whyp, nontrivial=False)
   cp = prog.func(V, 'VarzAggregator.CalculatePercentile')
   values, pct = cp.params[0], cp.params[1]
-  t = U(cp.node).replace(' ', '')
-  ok = ('k=(len(%s)-1)*%s' % (values, pct) in t and 'f=math.floor(k)' in t and 'c=math.ceil(k)' in t
-        and '%s[int(f)]*(c-k)' % values in t and '%s[int(c)]*(k-f)' % values in t and 'returnd0+d1' in t and 'iff==c:return%s[int(k)]' % values in t.replace('\n', ''))
-  ctx.ob('C18.R3', cp, 'linear interpolation between floor and ceil ranks', ok, 'CalculatePercentile shape changed',
-         'weights (c-k) on the lower and (k-f) on the upper neighbour give a convex combination; swapped or different weights leave [min,max] or break monotonicity')
+  K = '(len(%s)-1)*%s' % (values, pct)
+  F, C = 'math.floor(%s)' % K, 'math.ceil(%s)' % K
+  LO, HI = '%s[int(%s)]' % (values, F), '%s[int(%s)]' % (values, C)
+  W = '%s-%s' % (K, F)
+  inter = '%s+(%s-%s)*(%s)' % (LO, HI, LO, W)
+  good_interp = {'min(%s,%s)' % (HI, inter), 'min(%s,%s)' % (inter, HI)}
+  whyi = ('a reported percentile must lie between the two neighbouring retained samples and must not decrease as the percentile rises. The weighted sum '
+          'lo*(c-k) + hi*(k-f) rounds its two products separately: for tied neighbours it lands a few ulps outside [lo, hi] ([89.8, 89.8] gives '
+          'p90 = 89.79999999999998 < min and < p50). lo + (hi-lo)*(k-f), capped at hi, is inside and monotone in floating point')
+  seen = set()
+  for ev, ex in enum_paths(ctx, cp):
+    if ex[0] != 'ret':
+      continue
+    r = [e for e in ev if e.kind == 'ret'][-1]
+    i = ev.index(r)
+    rt = resolved_text(ev, i, r.node.value) if r.node.value is not None else None
+    conds = [(resolved_text(ev, j, e.node), bool(e.info)) for j, e in enumerate(ev[:i]) if e.kind == 'cond']
+    if ('not%s' % values, True) in conds or (values, False) in conds or ('len(%s)==0' % values, True) in conds:
+      seen.add('empty')
+      ctx.ob('C18.R3', cp, 'no samples: percentile 0', rt in ('0', '0.0'), 'empty input returns %s' % rt, whyi, nontrivial=False)
+      continue
+    exact = [v for t, v in conds if t in ('%s==%s' % (F, C), '%s==%s' % (C, F))]
+    tied = [v for t, v in conds if t in ('%s==%s' % (LO, HI), '%s==%s' % (HI, LO))]
+    if exact and exact[-1]:
+      seen.add('exact')
+      ctx.ob('C18.R3', cp, 'integral rank: the sample at that rank', rt in ('%s[int(%s)]' % (values, K), LO, HI), 'integral rank returns %s' % rt, whyi)
+    elif tied and tied[-1]:
+      seen.add('tied')
+      ctx.ob('C18.R3', cp, 'tied neighbours: that sample', rt in (LO, HI), 'tied neighbours return %s' % rt, whyi)
+    else:
+      seen.add('interp')
+      ctx.ob('C18.R3', cp, 'interpolation stays between the neighbouring samples and is monotone: min(hi, lo + (hi - lo) * (k - f))', rt in good_interp,
+             'interpolated value is %s' % rt, whyi)
+  ctx.ob('C18.R3', cp, 'percentile cases: empty, integral rank, interpolated', {'empty', 'exact', 'interp'} <= seen, 'cases seen: %s' % sorted(seen), whyi)
   # downsample keeps values of the input only
   dsf = prog.func(V, 'VarzAggregator._Downsample')
   ys = [n for n in ast.walk(dsf.node) if isinstance(n, ast.Yield)]
